@@ -258,6 +258,11 @@ pub fn create_and_read_back(work: &Work, report: &mut BodyReport) {
                         .get_slice(jubako::Offset::zero(), c.bytes.len())
                         .map(|s| s.to_vec())
                         .map_err(|e| simcore::dump::err_class(&e))
+                } else if i % 5 == 1 {
+                    // the consuming conversion region -> stream
+                    use std::io::Read;
+                    let mut v = vec![];
+                    jubako::reader::ByteStream::from(region.clone()).read_to_end(&mut v).map(|_| v).map_err(|e| format!("{:?}", e.kind()))
                 } else {
                     simcore::dump::read_region(&region)
                 };
